@@ -29,8 +29,12 @@ MANIFEST = {
              "mathematics needs, and by induction on the expression tree the operator-overloading walk returns (value, partial derivative) "
              "for every tree, every log-status assignment, every seed direction and every admissible point (d/d log x for log-variables), "
              "unconditionally for the rules as generated now (sqrtFormula_holds, maxFloorFormula_holds: a regression of a rule breaks the build); "
-             "functions with no Atom method (abs, minimum, normal_cdf, normal_pdf, number**Atom, maximum(number, Atom)) are proved to end in "
-             "TypeError in the model of the dispatch (rejected, never differentiated). Placement, proved on the executable map definitions for "
+             "admissible = the guards of the calculus AND of numpy's domain (non-zero divisors also for constant divisors, positive log/sqrt "
+             "arguments, negative base only with an integer exponent), so that the real-number model means what the code computes. Rejection "
+             "clause, over the generated methods/aliases tables: every operator and function shape either reaches a generated rule whose "
+             "derivative is proved or has no method at all (binop/call1/call2_rejected_iff: exactly number**Atom, abs/normal_cdf/normal_pdf of "
+             "an Atom, minimum of an Atom, (number, Atom) arguments; *_never_unmodelled; adEval_error_is_typeError for whole trees). "
+             "Placement, proved on the executable map definitions for "
              "every system of equations, token set and number of periods: rhs offsets; ArrayMap.static characterised entry by entry (row of the "
              "equation, column of exactly that occurrence, nothing dropped) and no two entries address the same cell; A-or-B exactly once by the "
              "lagged-vector rule; the transition vector holds exactly the shifts min+1..max of every variable, each exactly once, sorted leads "
@@ -39,15 +43,17 @@ MANIFEST = {
              "between (equation, period) and rows, no two entries address the same cell; the terminal spots' running index is k*nq+p and "
              "terminate_jacobian's row selection picks row p of block k of [T; T^2; ...]; create_terminal_jacobian_map pairs matching spots. "
              "System level, end to end: the matrix assembled from a static map and the stacked AD output has, in the row of equation i and the "
-             "column of its wrt-token, exactly the partial derivative of that equation's residual (systemize_entry_sound: input-level hypotheses "
-             "only), zero in every other cell, and triplet (sparse, duplicates add up) assembly equals dense assignment because no cell is "
+             "column of its wrt-token, exactly the partial derivative of that equation's residual (systemize_entry_sound, generic in the column "
+             "list: A D F G J and B; composed down to the model's own systemAB for A in systemAB_A_entry_sound, hypotheses on inputs only: "
+             "duplicate-free wrt-lists, admissible point), zero in every other cell, and triplet (sparse, duplicates add up) assembly equals dense assignment because no cell is "
              "addressed twice; the loop over parameter variants is a map with variant locality (output k depends on input variant k only); the "
              "evaluator object is a state machine whose every observation, for every call history, is the pure function of the guess passed with "
              "that call (also with a by-value memo under its invariant); terminate_jacobian in matrix form (Jacobian of x -> G(x, Phi x) = "
              "plain Jacobian + terminal block composed with Phi, Frechet chain rule). "
              "User context functions: the two-sided difference quotient composed with the chain rule is proved exact for polynomials of degree "
              "<= 2 (one argument, the two-argument total derivative for bilinear-quadratic functions, and by induction over the argument list any number of "
-             "arguments for separable quadratics) and off by exactly eps^2*d for the "
+             "arguments for separable quadratics; for an arbitrary Frechet-differentiable n-ary user function the walk is sound exactly when every "
+             "two-sided quotient equals the corresponding partial derivative, userCallFin_sound_of_exact) and off by exactly eps^2*d for the "
              "cubic (with the code's step: max(|v|,1)^2*1e-12*|d|). Partial: the model is tied to the code by the translator for the rules and by "
              "exact differential correspondence for the walk, seeds, maps and terminal bookkeeping; IEEE rounding, argument aliasing in the "
              "finite differentiator, function caching, the sparse assembly and the numerical terminal-condition matrices are covered only by the "
@@ -1793,8 +1799,8 @@ def run_variant_models(ctx: Ctx, bad_rules: set, scale=1, oracle_only=False):
 
 
 def sysmat_lines(case, m, assigns, linear):
-    """end-to-end matrix correspondence: systemize()[k].A / .B (equation rows) of every variant against the Lean model's `systemAB`
-    (generated rules + walk + maps + assembly) at the point built from that variant's own values"""
+    """end-to-end matrix correspondence: systemize()[k] A B D F G J (equation rows) of every variant against the Lean model's `systemAll`
+    (generated rules + walk + seeds + offsets + maps + assembly) at the point built from that variant's own values"""
     inv = m._invariant
     sv = inv.dynamic_descriptor.system_vectors
     eqs = {e.id: e for e in inv.dynamic_equations}
@@ -1806,20 +1812,25 @@ def sysmat_lines(case, m, assigns, linear):
     try:
         systems = m.systemize(unpack_singleton=False)
     except TypeError:
-        return [], []          # some equation (possibly a measurement equation, which `sysmat` does not carry) is rejected: nothing to compare
+        return [], []          # some equation is rejected: the rejection itself is compared in the tree streams
     lines, impl = [], []
-    nT = len(sv.transition_eids)
+    nT, nM = len(sv.transition_eids), len(sv.measurement_eids)
+    all_eids = list(sv.transition_eids) + list(sv.measurement_eids)
     for vid, asg in enumerate(assigns):
         arr = own_data_array(m, asg, linear)
-        toks = sorted(set((t.qid, t.shift) for eid in sv.transition_eids for t in eqs[eid].incidence))
-        ws = ["sysmat", "F", bits, str(len(toks))]
+        toks = sorted(set((t.qid, t.shift) for eid in all_eids for t in eqs[eid].incidence))
+        ws = ["sysall", "F", bits, str(len(toks))]
         for q, sft in toks:
             ws += [str(q), str(sft), enc(arr[q, off + sft])]
-        ws += tok_list(sv.transition_variables) + [str(nT)]
-        for eid in sv.transition_eids:
-            ws += tok_list(sv.eid_to_wrt_tokens[eid]) + prefix(tree_of_xtring(eqs[eid].xtring), enc)
+        ws += tok_list(sv.transition_variables) + tok_list(sv.transition_shocks) + tok_list(sv.measurement_variables) + tok_list(sv.measurement_shocks)
+        for group in (sv.transition_eids, sv.measurement_eids):
+            ws += [str(len(group))]
+            for eid in group:
+                ws += tok_list(sv.eid_to_wrt_tokens[eid]) + prefix(tree_of_xtring(eqs[eid].xtring), enc)
         lines.append(" ".join(ws))
-        impl.append(None if systems is None else (np.array(systems[vid].A[:nT, :], dtype=float), np.array(systems[vid].B[:nT, :], dtype=float)))
+        s_ = systems[vid]
+        impl.append({"A": np.array(s_.A[:nT, :], dtype=float), "B": np.array(s_.B[:nT, :], dtype=float), "D": np.array(s_.D[:nT, :], dtype=float),
+                     "F": np.array(s_.F, dtype=float), "G": np.array(s_.G, dtype=float), "J": np.array(s_.J, dtype=float)})
     return lines, impl
 
 
@@ -1830,20 +1841,26 @@ def compare_sysmat(ctx: Ctx, cases, lines, impl):
     import struct
     ctx.streams_compared["system-matrix"] = ctx.streams_compared.get("system-matrix", 0) + len(lines)
     for c, im, rep in zip(cases, impl, reps):
-        if im is None or rep.startswith("err"):
-            if not (im is None and rep == "err:rejected"):
-                ctx.disagree("system-matrix", c, "rejected" if im is None else "matrices", rep[:80])
+        if rep.startswith("err") or rep == "bad-op":
+            ctx.disagree("system-matrix", c, "matrices", rep[:80])
             continue
         try:
             parts = dict(p.split("=", 1) for p in rep.split("|"))
             ok = True
-            for name, M in (("A", im[0]), ("B", im[1])):
-                rows = [[struct.unpack("<d", struct.pack("<Q", int(w)))[0] for w in r.split(",")] for r in parts[name].split(";")] if parts[name] else []
-                mm = np.array(rows, dtype=float).reshape(M.shape)
+            for name in "ABDFGJ":
+                M = im[name]
+                txt = parts[name]
+                vals = [struct.unpack("<d", struct.pack("<Q", int(w)))[0] for r in txt.split(";") for w in r.split(",") if w] if txt else []
+                if len(vals) != M.size:
+                    ok = False
+                    ctx.disagree("system-matrix", c, f"{name} has shape {M.shape}", f"{name} has {len(vals)} entries")
+                    break
+                mm = np.array(vals, dtype=float).reshape(M.shape)
                 if not all(close(float(a), float(b)) for a, b in zip(M.ravel(), mm.ravel())):
                     ok = False
                     ctx.disagree("system-matrix", c, f"{name}={M.tolist()}", f"{name}={mm.tolist()}")
                     break
+                ctx.count(f"system-matrix:{name}-entries", int(M.size))
             if ok:
                 ctx.count("system-matrix:agree")
         except Exception as ex:
